@@ -460,7 +460,7 @@ PY_SPEC = {
         'intr': ('default permission', 'default permission', {'value': _P('permission')}),
         'perm_intr': ('permissions', 'permissions', {'value': _P('permission')})},
     'add_permission': {'intr': ('permissions', 'permissions', {'value': _P('permission_name')})},
-    'set_default_csrf_options': {'intr': ('default csrf options', 'default csrf view options', {
+    'set_default_csrf_options': {'intr': ('default csrf view options', 'default csrf view options', {
         'require_csrf': _P('require_csrf'), 'token': _P('token'), 'header': _P('header'),
         'safe_methods': _D('as_sorted_tuple(safe_methods)', lambda a, e: as_sorted_tuple(a['safe_methods'])),
         'check_origin': _P('check_origin'), 'allow_no_origin': _P('allow_no_origin'), 'callback': _P('callback')})},
@@ -515,6 +515,29 @@ PY_SPEC = {
         'cachebust': _P('cachebust'), 'path': _D('spec', lambda a, e: _slash(a['path'])), 'explicit': _P('explicit')})},
 }
 
+# categories of the families the chapter documents (PY_SPEC names them; compared with the live document below)
+DOCUMENTED_FAMILY_CATEGORIES = {doc for spec_ in PY_SPEC.values() for (doc, src, _k) in spec_.values()
+                                if doc is not None and doc not in ('request extensions', 'execution policy', 'response factory',
+                                                                   'csrf storage policy', 'cache busters', 'accept view order',
+                                                                   'view derivers')}
+_DOC_CACHE = {}
+
+
+def live_doc_categories():
+    """the category headings of docs/narr/introspector.rst of the tree under test (same parser as the translator)"""
+    import pyramid
+    src_root = os.path.dirname(os.path.dirname(os.path.abspath(pyramid.__file__)))
+    if src_root not in _DOC_CACHE:
+        here = os.path.dirname(os.path.dirname(os.path.abspath(__file__)))
+        import importlib.util
+        sp = importlib.util.spec_from_file_location('extract_c20_docs', os.path.join(here, 'extract', 'c20.py'))
+        m = importlib.util.module_from_spec(sp)
+        sp.loader.exec_module(m)
+        status, names = m.doc_categories(src_root)
+        _DOC_CACHE[src_root] = set(names) if status == 'ok' else set()
+    return _DOC_CACHE[src_root]
+
+
 # public directive -> (slice name in the generated / specified table, fixed extra arguments)
 PUBLIC = {
     'add_view_predicate': ('_add_predicate', {'type': 'view'}),
@@ -531,6 +554,9 @@ def spec_crosscheck(lean_spec):
     by_name = {s['name']: s for s in lean_spec}
     if set(by_name) != set(PY_SPEC):
         diffs.append('directive sets differ: %s' % sorted(set(by_name) ^ set(PY_SPEC)))
+    lean_doc = {c for s_ in lean_spec for _, c in s_['docCategory']}
+    if lean_doc != DOCUMENTED_FAMILY_CATEGORIES:
+        diffs.append('documented categories: lean %s vs python %s' % (sorted(lean_doc - DOCUMENTED_FAMILY_CATEGORIES), sorted(DOCUMENTED_FAMILY_CATEGORIES - lean_doc)))
     # every family the harness calls reaches its slice through a specified public entry
     for fam in FAMILIES:
         slice_name = PUBLIC.get(fam, (fam, {}))[0]
@@ -1299,8 +1325,11 @@ def oracle_cfg(case, real):
                 continue
             i = cands[0]
             if i.category_name != cat_doc:
-                out.append(('%s: the entry is filed under category %r, the documented category is %r' % (where, i.category_name, cat_doc),
-                            'F-C20c' if (d == 'set_default_csrf_options' and i.category_name == 'default csrf view options') else None))
+                out.append(('%s: the entry is filed under category %r, the documented category is %r' % (where, i.category_name, cat_doc), None))
+            elif cat_doc in DOCUMENTED_FAMILY_CATEGORIES and cat_doc not in live_doc_categories():
+                # the chapter read from the tree under test (docs/narr/introspector.rst), not a frozen copy
+                out.append(('%s: the entry is filed under category %r, which docs/narr/introspector.rst does not document (its headings: %s)'
+                            % (where, i.category_name, sorted(live_doc_categories())), None))
             if I.get(i.category_name, i.discriminator) is not i:
                 out.append(('%s: introspector.get(%r, …) does not return the statement\'s entry' % (where, i.category_name), None))
             for key, want in exp['keys'].items():
@@ -1692,7 +1721,7 @@ def evaluate(ctx, case, want_model=True):
 KINDS = [('could not be declared/committed', 'invalid'), ('oracle crashed', 'invalid'), ('commit raised a conflict', 'conflict'),
          ('KeyError', 'keyerror'), ('commit succeeded although', 'no-conflict'),
          ('but no entry of it', 'missing'), ('has no entry in', 'missing'), ('lacks key', 'lacks'),
-         ('is filed under category', 'category'), ('overridden through conflict resolution but owns', 'overridden-owns'),
+         ('is filed under category', 'category'), ('does not document', 'category'), ('overridden through conflict resolution but owns', 'overridden-owns'),
          ('introspection off', 'flag'), ('introspection is off', 'flag'), ('does not point at the statement', 'info'),
          ('no parameter accounts for', 'extra-keys'), ('not related both ways', 'relation'), ('is related to', 'relation'),
          ('expected relation', 'relation'), ('does not return the statement', 'get'), ('records', 'value'),
